@@ -69,7 +69,7 @@ def instances(tier, rng):
                 for cons in rng.sample(cl, min(2 if quick else len(cl), len(cl))):
                     feats.append({"cons": cons, "covlen": rng.choice([[1, 2], [3, 4], [7, 10], [17, 20], [1, 1]]),
                                   "elen": [rng.choice([vlib.NONE, 1, 1, 2, 3, 5, 8]) for _ in u["edges"]]})
-                    if not cover:
+                    if True:
                         # node mode: lengths on the nodes (absent = 1); link edges count 0 unless the edge has a length itself
                         feats.append({"mode": "node", "cons": cons, "covlen": rng.choice([[1, 2], [3, 4], [17, 20], [1, 1]]),
                                       "nlen": [rng.choice([vlib.NONE, 1, 1, 2, 3, 8]) for _ in u["nodes"]],
@@ -158,7 +158,7 @@ def instances(tier, rng):
         for p in (cross if not quick else rng.sample(cross, min(2, len(cross)))):
             es = C.route_edges(p)
             for cons in ([es], [[es[0], es[-1]]]):
-                for cls in ("MinFlowDecomp", "kFlowDecomp"):
+                for cls in ("MinFlowDecomp", "kFlowDecomp", "MinPathCover"):
                     for var in ({"cov": rng.choice([[3, 4], [2, 3], [1, 2]])},
                                 {"covlen": rng.choice([[17, 20], [3, 4], [7, 10]]),
                                  "elen": [rng.choice([1, 1, 2, 8]) for _ in u["edges"]]},
@@ -166,7 +166,10 @@ def instances(tier, rng):
                                  "nlen": [rng.choice([1, 1, 2, 8]) for _ in u["nodes"]]}):
                         r = C.base(u, cls, var.get("mode", "edge"))
                         r.update(var)
-                        r["wt"] = "int"
+                        if cls == "MinPathCover":
+                            r.pop("ew", None), r.pop("nw", None)
+                        else:
+                            r["wt"] = "int"
                         r["cons"] = cons
                         if cls == "kFlowDecomp":
                             r["k"] = len(u["proutes"])
